@@ -12,6 +12,7 @@ CLAIMS = {
  "C03": ("theorems: frame and raise-frame of the workspace model for all 32 operations and all histories (specification the code is compared to); tie: whole-store deep snapshots before/after every real call, shared-state identity checks", "5 C03"),
  "C04": ("theorems: binop_spec (element-wise by NAME for every pair of dim lists, broadcasting), succeeds iff shared coords agree, permutation invariance, scalar/array variants; tie: enumerated dim-list pairs through real code and model + order-free oracle", "5 C04"),
  "C05": ("theorems: int/float/range selector logic (argmin is first minimiser; range = non-empty contiguous run between nearest positions), read=write by shared conversion, pinned defect refuted on a witness; tie: enumerated selectors x axis kinds + specification oracle", "5 C05"),
+ "C06": ("theorem: for every binary layout `header ++ rows(prefix ++ points ++ padding)` read into an axis-transposed array, decode(encode a) = a for every rank, extent, point width, prefix/padding and transposition (hence no sample dropped, duplicated, padded or moved); the per-format layouts are instances; tie: the LEAN ENCODER produces the binary section of synthetic Prospa / VnmrJ / TopSpin / TNMR files, the real importers read them back sample-exactly (values, dims, axes), every shipped sample imports consistently, two-encoding comparison. Partial: text-header parsers differential only; Delta/BES3T/WinEPR/SpecMan/RS2D/CSV through shipped samples only", "5 C06"),
  "C07": ("theorems over an abstract HDF5 tree: every storable attribute value round-trips (None through the alias, lists/tuples/arrays as one class), attribute dictionaries keep their mapping, the history comes back entry by entry IN ORDER for any length (induction; '%i:%s' then split(':',1) returns the name), load(save x) = x field by field; tie: real files written by the real code are dumped through h5py and compared with the model's tree, loaded objects with the model's, plus the property itself on every case and on every shipped sample that imports", "5 C07"),
  "C08": ("theorems: the bracket theorem (unfold -> per-column function -> fold acts on each by-name trace, any rank / position), the same for the axis-index mechanism and named reductions, equality of the two mechanisms, permutation equivariance as a corollary, pinned interp refuted on a witness; tie: every registry function x dim position through real code and model + f(permute x)=permute(f x) and single-trace oracles", "5 C08"),
  "C09": ("theorems (any field with a primitive N-th root of unity): the model's per-trace transform is the DFT sum, linearity, orthogonality, an on-grid tone peaks at its own bin only, idft(dft x) = x, ifftshift∘fftshift = id for every length (and fftshift twice is not, odd N), the shifted axis coordinate of bin b is ≡ b/(N dt) mod 1/dt for even and odd N, renaming; tie: Lean DFT model vs numpy.fft (twiddles as parameter), exact axis over Q, direct O(n^2) DFT / tone / round-trip oracles for every length of the tier", "5 C09"),
@@ -21,6 +22,7 @@ CLAIMS = {
  "C14": ("theorems: id - P annihilates polynomials, is idempotent and linear for ANY linear fit map P that reproduces sampled polynomials (numpy.polyfit's assumed specification, hypotheses not axioms); normalize: largest magnitude exactly 1, positive factor, idempotent; the model's numpy.interp returns the node value at every node (interp on own coordinates = identity) and the straight line between nodes; left_shift = slice n:; ndalign only rolls and keeps the first trace; tie: exact model for normalize/interp/left_shift/ndalign, per-trace table for the fit, algebraic-law oracles. Partial: polyfit S1/S2 assumed; shift-equivariance on the implementation only (known finding for lags beyond n/2)", "5 C14"),
  "C15": ("theorems: apodize multiplies every element by the window value at its own position along dim (same window for every trace), unknown kinds rejected over the window table REGENERATED from the source, over R: exponential closed form, first point 1 and never increasing for exponential/gaussian/hann/hamming; tie: the same generic Lean formulas evaluated in Float vs dnplab.math.window, apodize correspondence, window oracles", "5 C15"),
  "C16": ("theorems by kernel evaluation over tables REGENERATED from load.py and dnplab.cfg: every format autodetect can return is dispatched (or is mat), recognition by extension / directory content, rejection of everything else over the whole abstract domain (22 ext x dir x 2^6 listings), scale factor of every prefix x unit string, the configured frequency key/unit of every NMR format equals the importer's own Hz convention, sections <-> dispatch; over R: dBm<->W are inverse, container independent; tie: exhaustive autodetect on real paths, every config key through the real code, shipped samples (autodetected = explicit, frequency = nmr_frequency), multi-path load, conversions on all container types", "5 C16"),
+ "C19": ("theorems about the strict reader of the same layout model: every truncation is refused, trailing bytes are refused unless the format has a trailer, an accepted byte string has exactly the declared size (so a header perturbation that changes the declared total is refused), accepted arrays have the declared shape, filler bytes are irrelevant; tie: fault enumeration (truncation classes, trailing bytes, every single-field extent perturbation) on synthetic files of four formats, the real importer must raise / warn / agree with the intact import label for label. Partial: a lax but correct importer is accepted by the oracle only; three TopSpin findings recorded", "5 C19"),
  "C17": ("theorems about the model of the repaired save_h5: refusal without overwrite leaves the destination untouched, ANY fault (an unstorable value at any position) leaves the destination exactly as it was, success holds the complete tree; pinned truncate-then-write refuted on a witness; tie: fault enumeration over every injection position x previous file x overwrite, outcome classes compared with the model and with the property", "5 C17"),
  "C11": ("theorems: every stamping step appends, pipeline_prefix by induction over any pipeline, input untouched (frame); tie: pipelines on objects with 0-12 pre-existing entries + history oracle", "5 C11"),
 }
